@@ -34,9 +34,9 @@ def cases(tier, seed):
         w = writers[i % len(writers)]
         out.append(dict(writer=w, depth=R.choice([1, 2, 2, 3] if tier == "quick" else [1, 2, 3, 4]), mode=R.choice(["F32", "F64"]) if w != "write_image_int" else R.choice(["I16", "I32"]),
                         par=R.choice([1, 4]), via=R.choice(["cascade_images", "builder"]), seed=R.randrange(1 << 30), fill=R.choice([0.2, 0.5, 1.0])))
-    for i in range(8 if tier == "quick" else 120):
+    for i in range(12 if tier == "quick" else 160):
         out.append(dict(writer="write_image", depth=R.choice([1, 2, 3]), mode=R.choice(["F32", "F64", "I16"]), par=R.choice([1, 2]), via="builder", seed=R.randrange(1 << 30), fill=0.4,
-                        second_round=R.choice(["same_builder", "restored_builder"])))
+                        second_round=R.choice(["same_builder", "restored_builder"]), mods=R.sample(["remove_extreme", "replace_older", "update"], R.choice([0, 1, 2]))))
     for i in range(3 if tier == "quick" else 30):
         out.append(dict(writer="tile_fits", depth=0, mode="F32", par=R.choice([1, 2]), via="tile_fits", seed=R.randrange(1 << 30), fill=1.0, tan=(i % 3 != 2)))
     return out
@@ -252,6 +252,26 @@ def run_case(spec, workdir):
             if np.dtype(dt).kind == "f":
                 a[0, 0] = -9000.5
             pio.write_image(Pos(*p), Image.from_array(a, default_format="fits"))
+        mods = spec.get("mods") or []
+        cur = true_ranges(base, depth)
+        lv = sorted(q for q in cur if q[0] == depth)
+        if "remove_extreme" in mods and len(lv) >= 2:
+            # the leaf holding the maximum is withdrawn (its siblings stay): the range above it must shrink
+            q = max(lv, key=lambda t: cur[t][1])
+            os.unlink(os.path.join(base, tilegen.tile_relpath(q, "fits")))
+            lv.remove(q)
+        if "replace_older" in mods and lv:
+            # the leaf holding the minimum is replaced by narrower data in a file whose timestamp is OLD (cp -p, rsync -a)
+            q = min(lv, key=lambda t: cur[t][0])
+            dt = DT[spec["mode"]]
+            a = (np.full((256, 256), 3.0) + rng.random((256, 256))).astype(dt) if np.dtype(dt).kind == "f" else rng.integers(100, 200, (256, 256)).astype(dt)
+            pio.write_image(Pos(*q), Image.from_array(a, default_format="fits"))
+            os.utime(os.path.join(base, tilegen.tile_relpath(q, "fits")), (1.0e9, 1.0e9))
+        if "update" in mods and lv:
+            q = lv[len(lv) // 2]
+            with pio.update_image(Pos(*q), masked_mode=Image.from_array(np.zeros((2, 2), DT[spec["mode"]])).mode, default="masked") as basis:
+                arr = basis.asarray()
+                arr[10:20, 10:20] = 77777 if arr.dtype.kind == "f" else 31000
         b2 = b
         if spec["second_round"] == "restored_builder":
             from wwt_data_formats.folder import Folder
